@@ -24,8 +24,6 @@ func VerifReadTlvStream(reader io.Reader, onFrame func([]byte), ignoreError func
 func VerifFaceConsts() map[string]int {
 	m := map[string]int{
 		"MaxNDNPacketSize":       defn.MaxNDNPacketSize,
-		"lpPacketOverhead":       lpPacketOverhead,
-		"pitTokenOverhead":       pitTokenOverhead,
 		"congestionMarkOverhead": congestionMarkOverhead,
 	}
 	for _, frag := range []bool{false, true} {
@@ -67,7 +65,7 @@ func NewVerifTransport(mtu int, scope defn.Scope) *VerifTransport {
 	return t
 }
 
-func (t *VerifTransport) String() string                 { return "VerifTransport" }
+func (t *VerifTransport) String() string                  { return "VerifTransport" }
 func (t *VerifTransport) SetPersistency(Persistency) bool { return true }
 func (t *VerifTransport) GetSendQueueSize() uint64        { return 0 }
 func (t *VerifTransport) runReceive()                     {}
